@@ -164,6 +164,8 @@ class ExprMixin:
                 same = isinstance(left, NoneV) and isinstance(right, NoneV)
             elif isinstance(left, BoolV) and isinstance(right, BoolV):
                 same = left.t == right.t
+            elif getattr(left, "kind", "") == "ref" and getattr(right, "kind", "") == "ref":
+                same = self.eq(left, right)
             elif isinstance(left, (ObjV, ListV, SeqV, SetV, DictV)):
                 same = left is right
             elif isinstance(left, ClassV) and isinstance(right, ClassV):
